@@ -102,6 +102,8 @@ def run(M, rep, tier, only=None):
                   floor=30, technique="path-sensitive abstract interpretation, must-follow on all normal paths")
     R2 = rep.rule("C19.R2", "no updated_at stamp outside creation/force_* without the switch tested true", floor=60,
                   technique="all abstract paths of every mutating API member")
+    R8 = rep.rule("C19.R8", "a change moves only the changed entity's own updated_at, never its parent's or the file's", floor=60,
+                  technique="receiver of every updated_at write on all abstract paths")
     R3 = rep.rule("C19.R3", "created_at written only by creation and force_created_at", floor=60,
                   technique="event stack inspection on all abstract paths")
     R5 = rep.rule("C19.R5", "time_to_str/str_to_time agree on format and epoch convention", floor=1,
@@ -168,12 +170,16 @@ def run(M, rep, tier, only=None):
                 rep.notes.append("skipped %s: %s" % (key, e))
                 continue
             raise
-        v2 = v3 = None
+        v2 = v3 = v8 = None
         for p in paths:
             for e in p.events:
                 if not ctx.fx.is_write(e):
                     continue
                 k = ctx.fx.key(e)
+                if k == "updated_at" and e.kind == "layer" and e.recv is not None and cn != "File" and \
+                        e.recv.t != ("attr", ("self",), "_h5group") and e.recv.t and e.recv.t[0] == "attr" and e.recv.t[2] == "_h5group" \
+                        and any(x and x[0] == "attr" and x[1] == ("self",) and x[2] in ("_parent", "_file") for x in subterms(e.recv.t)):
+                    v8 = v8 or (p, e)       # the update time of the entity's parent / of the file is moved as well
                 fn_names = [q.split(":")[-1].split(".")[-1] for q in e.stack]
                 creating = any(n in ("create_new", "__init__", "_create_header", "create_property") for n in fn_names[1:]) \
                     or any(n.startswith("copy") for n in fn_names)
@@ -191,6 +197,11 @@ def run(M, rep, tier, only=None):
             rep.bad(R3, key, "created_at of an existing entity is written", site=v3[1].site, detail=describe_path(v3[0]))
         else:
             rep.ok(R3, key)
+        if v8:
+            rep.bad(R8, key, "%s also writes updated_at of another entity (%s): the statement allows only the changed entity's own "
+                    "update time to move" % (key, show(v8[1].recv.t)), site=v8[1].site, detail=describe_path(v8[0]))
+        else:
+            rep.ok(R8, key)
 
     _r6(M, rep, ctx)
     _r7(M, rep)
